@@ -128,6 +128,14 @@ def decide_test(test, env):
             x, y = val(e.left), val(e.right)
             if isinstance(x, (int, float)) and isinstance(y, (int, float)):
                 return x + y if isinstance(e.op, ast.Add) else x - y
+        if isinstance(e, ast.IfExp):
+            r = decide_test(e.test, env)
+            if r is not None:
+                return val(e.body if r else e.orelse)
+        if isinstance(e, (ast.Tuple, ast.List, ast.Set)):
+            vs = [val(x) for x in e.elts]
+            if KeyError not in vs:
+                return tuple(vs)
         return KeyError
     if isinstance(test, ast.UnaryOp) and isinstance(test.op, ast.Not):
         r = decide_test(test.operand, env)
